@@ -13,7 +13,7 @@ from fvsym.props.c03 import flat
 BOUNDS = {
     "quick": "fromUncompressed/uncompress on rectangular nests 3, 2x2, 2x3, 2x2x2 with every entry symbolic (default 0) and 2x2 with the non-zero default 9; "
              "fiber2dict/dict2fiber and Tensor.dump/fromYAMLfile, Fiber.dump/fromYAMLfile through the in-memory YAML contract stub S4 on skeletons 2, [1,1], [2,1], [1,0] "
-             "and rank-0; fromRandom through S3 with symbolic draw outcomes for shapes [3], [2,2], density 1.0 and 0.5, two seeds; concrete runs through the real PyYAML",
+             "and rank-0; fromRandom through S3 with symbolic draw outcomes for shapes [3], [2,2], density 1.0 and 0.5, two seeds; concrete runs through the real PyYAML; 2x2x2 and 2x1x1x2 nests with half of the entries fixed (all-default depth-2 slice, mixed slice, default 9); a second dump/load round trip of the loaded tensor",
     "thorough": "nests 4, 3x3, 1x1x1x2, 2x2x2 with symbolic default; YAML stub on [2,2], [[1]]",
 }
 OUTSIDE = ("the YAML text layer (PyYAML emitter/resolver work on strings: exercised with concrete values only) and CPython's Mersenne Twister "
